@@ -39,6 +39,11 @@ pub struct CursorChecker<I: RainDbIterator<Key = Vec<u8>, Error = raindb::RainDB
     trace: Vec<String>,
     pub steps: u64,
     pub reversals: u64,
+    /// Fault-tolerant mode (used by C08): a step after which `status()` reports an error is not
+    /// compared with the cursor, and a failing seek counts as a reported error; every step after
+    /// which `status()` is clean must be at the cursor's position.
+    pub tolerate_reported_errors: bool,
+    pub reported_errors: u64,
 }
 
 impl<I: RainDbIterator<Key = Vec<u8>, Error = raindb::RainDBError>> CursorChecker<I> {
@@ -51,6 +56,8 @@ impl<I: RainDbIterator<Key = Vec<u8>, Error = raindb::RainDBError>> CursorChecke
             trace: vec![],
             steps: 0,
             reversals: 0,
+            tolerate_reported_errors: false,
+            reported_errors: 0,
         }
     }
 
@@ -60,8 +67,10 @@ impl<I: RainDbIterator<Key = Vec<u8>, Error = raindb::RainDBError>> CursorChecke
         for step in 0..steps {
             watch::tick();
             self.steps += 1;
-            let valid = self.pos.is_some();
+            // (in fault-tolerant mode the real iterator may have become invalid after an error)
+            let valid = self.pos.is_some() && (!self.tolerate_reported_errors || self.iter.is_valid());
             let roll = rng.below(100);
+            let mut seek_failed = false;
             let op: String;
             let mut returned: Option<Option<(Vec<u8>, Vec<u8>)>> = None;
             let mut dir_now = Dir::None;
@@ -69,16 +78,24 @@ impl<I: RainDbIterator<Key = Vec<u8>, Error = raindb::RainDBError>> CursorChecke
                 match rng.below(8) {
                     0 => {
                         if let Err(e) = self.iter.seek_to_first() {
-                            out.violate(format!("{prop}/seek-error"), json!({"ctx": ctx, "error": e.to_string()}));
-                            return false;
+                            if self.tolerate_reported_errors {
+                                seek_failed = true;
+                            } else {
+                                out.violate(format!("{prop}/seek-error"), json!({"ctx": ctx, "error": e.to_string()}));
+                                return false;
+                            }
                         }
                         self.pos = if entries.is_empty() { None } else { Some(0) };
                         op = "seek_to_first".into();
                     }
                     1 => {
                         if let Err(e) = self.iter.seek_to_last() {
-                            out.violate(format!("{prop}/seek-error"), json!({"ctx": ctx, "error": e.to_string()}));
-                            return false;
+                            if self.tolerate_reported_errors {
+                                seek_failed = true;
+                            } else {
+                                out.violate(format!("{prop}/seek-error"), json!({"ctx": ctx, "error": e.to_string()}));
+                                return false;
+                            }
                         }
                         self.pos = entries.len().checked_sub(1);
                         op = "seek_to_last".into();
@@ -112,8 +129,12 @@ impl<I: RainDbIterator<Key = Vec<u8>, Error = raindb::RainDBError>> CursorChecke
                             }
                         };
                         if let Err(e) = self.iter.seek(&target) {
-                            out.violate(format!("{prop}/seek-error"), json!({"ctx": ctx, "error": e.to_string()}));
-                            return false;
+                            if self.tolerate_reported_errors {
+                                seek_failed = true;
+                            } else {
+                                out.violate(format!("{prop}/seek-error"), json!({"ctx": ctx, "error": e.to_string()}));
+                                return false;
+                            }
                         }
                         self.pos = entries.iter().position(|(k, _)| k.as_slice() >= target.as_slice());
                         op = format!("seek({})", show(&target));
@@ -155,6 +176,15 @@ impl<I: RainDbIterator<Key = Vec<u8>, Error = raindb::RainDBError>> CursorChecke
                 self.trace.remove(0);
             }
             self.trace.push(op.clone());
+            if self.tolerate_reported_errors && (seek_failed || self.iter.status().is_some()) {
+                // the error was reported to the caller: nothing is promised about the position
+                self.reported_errors += 1;
+                if !self.iter.is_valid() || seek_failed {
+                    self.pos = None;
+                    self.last = Dir::None;
+                }
+                continue;
+            }
             let expected = self.pos.map(|i| entries[i].clone());
             let got_valid = self.iter.is_valid();
             let got = if got_valid { self.iter.current().map(|(k, v)| (k.clone(), v.clone())) } else { None };
